@@ -81,6 +81,21 @@ CHECKS = {
         technique="property-based testing + exhaustive small scope against brute-force complete extensions",
         text="Generated frameworks (<=10/13 arguments, compact ids incl. duplicate attack lines) and all digraphs on <=3/4 arguments: classes of the reduction partition the arguments, the two mappings are inverse at class level, every class is inside or outside each complete extension, grounded and defeated sets each within one class, no panic.",
         note="trusted: oracle.rs complete extensions"),
+    "C05": dict(
+        cat="exploration", ref="4 C05",
+        technique="property-based testing of the two binaries built from /repo's working tree: generated instance files and argv, answer-grammar parser + brute-force reference; generated bad invocations",
+        text="~3200 (quick) / 60000 (thorough) process invocations: generated files in both formats x 21 problems in random letter case x argument x reader/encoding/certificate/logging-level/external-solver options for `crustabri solve` and -f/-p/-a for `crustabri_iccma23`; stdout minus logger lines must be exactly the answer grammar and the answer right by the reference; 14 kinds of bad invocation must exit non-zero without an answer line; the problems listing must be exactly the 21 problems.",
+        note="trusted: oracle.rs, the answer-grammar parser, refparse.rs for ill-formed files; <=7 arguments"),
+    "C06": dict(
+        cat="exploration", ref="4 C06",
+        technique="stateful property-based testing: generated query scripts on one solver object per configuration, each answer against the reference (differential across encodings/backends by transitivity)",
+        text="Generated scripts of 3-12 (thorough: up to 30) SE/DC/DS steps with repetitions and certificate flags put to ONE solver object per (solver type, selectable encoder, backend in embedded / ExternalSatSolver(fake_sat) / ExternalSatSolver(kissat)); every answer equals the brute-force answer; a snapshot of the framework before equals the one after.",
+        note="trusted: oracle.rs; kissat optional; <=8 arguments"),
+    "C13": dict(
+        cat="exploration", ref="4 C13",
+        technique="grammar-based + mutation-based generation of byte strings, differential against tri-state reference parsers; libFuzzer target with the same oracle in the thorough tier",
+        text="Millions of byte strings per run for both readers: grammar-based well-formed files with all format-defined decorations, targeted corruptions of each listed ill-formedness class, byte-level mutations, token soup, raw bytes (invalid UTF-8, NUL). No panic; Accept => exactly the declared labels in order and attack set; Reject => Err; Unspecified => Err or the natural reading; read_arg_from_str in and out of range.",
+        note="trusted: refparse.rs and its list of unspecified inputs (DESIGN.md 3.5); declared sizes >10^5 excluded and counted"),
 }
 
 NOT_YET = "check not built yet in this session (work in progress; see DESIGN.md section 4 for the planned check)"
